@@ -232,6 +232,8 @@ def compile_cases(cs, cargo_extra, env, log):
         import shutil; shutil.copy("/repo/Cargo.lock", lock)
     alive = list(range(len(cs)))
     verdict = {}
+    stale = os.path.join(CRATE, "src", "bin", "probe.rs")          # the probe program of an earlier run names other definitions
+    if os.path.exists(stale): os.remove(stale)
     for rnd in range(8):
         head = LIB_HEAD.count("\n")
         src = LIB_HEAD + "\n".join(cs[i].rust(f"T{i}") for i in alive) + "\n"
@@ -260,7 +262,8 @@ def compile_cases(cs, cargo_extra, env, log):
             break
         for i, m in bad.items(): verdict[i] = m
         alive = [i for i in alive if i not in bad]
-        log(f"[attrgen] round {rnd}: {len(bad)} definitions rejected, {len(alive)} left")
+        from collections import Counter
+        log(f"[attrgen] round {rnd}: {len(bad)} definitions rejected, {len(alive)} left" + ("" if rnd == 0 else "; " + str(Counter(m[:50] for m in bad.values()).most_common(4))))
     for i in alive: verdict[i] = None
     probes = run_probes(cs, alive, cargo_extra, env, log)
     return verdict, probes
